@@ -325,7 +325,7 @@ Proof.
   - apply caller_start_tpre.
   - apply caller_timer_tpre.
   - apply caller_wake_tpre.
-  - destruct e as [k|p| |]; [cbn; apply tpre_same; reflexivity|apply pkt_rcvd_tpre|apply conn_tpre|apply conn_tpre].
+  - destruct e as [k|p| | |d]; [cbn; apply tpre_same; reflexivity|apply pkt_rcvd_tpre|apply conn_tpre|apply conn_tpre|cbn; apply tpre_same; reflexivity].
 Qed.
 
 Lemma boundary_same lifo w w' : boundary lifo w = Some w' -> trace w' = trace w /\ futs w' = futs w /\ cx w' = cx w.
@@ -581,11 +581,12 @@ Proof.
   - apply caller_start_J, HJ.
   - eapply RsatOk_weaken; [apply JT_JX|]. apply caller_timer_J, HJ.
   - apply caller_wake_J, HJ.
-  - destruct e as [k|p| |].
+  - destruct e as [k|p| | |d].
     + cbn. apply JT_JX, JT_same; try reflexivity; exact HJ.
     + eapply RsatOk_weaken; [apply JT_JX|]. apply pkt_rcvd_J, HJ.
     + eapply RsatOk_weaken; [apply JT_JX|]. apply conn_J, HJ.
     + eapply RsatOk_weaken; [apply JT_JX|]. apply conn_J, HJ.
+    + cbn. apply JT_JX, JT_same; try reflexivity; exact HJ.
 Qed.
 
 (* ---------------------------------------------------------------- every run *)
